@@ -16,31 +16,36 @@ type Opts struct {
 	OnExclude func(finding string)
 	OnClass   func(class string)
 
-	Pointers      bool // allow pointer fields
-	Unions        int  // 0 none, 1 allowed, 2 at least one
-	Hostile       bool // add unsupported forms (chan, func, anonymous struct, any, error, complex, anonymous containers of unions, …)
-	RareBasics    bool // basic kinds outside randdata's list (uint, uint32, uint64, float32, uintptr)
-	Recursion     bool // self / mutual recursion through slices, maps (and pointers when Pointers)
-	SubPkgs       bool
-	Generics      bool
-	Aliases       bool
-	Embedded      bool
-	StdTypes      bool
-	Spelling      bool // unusual but legal spellings (one-letter names, short package names, shared prefixes …)
-	TagVariety    bool // the full tag spelling catalogue of C09
-	NoIgnoreTag   bool // never put gomacro:"ignore" on a JSON-visible field (C03/C04 domain note)
-	JSONSafe      bool // only shapes whose Go JSON encoding round-trips (no bool/float map keys, no embedded time …)
-	ManySubPkgs   bool // up to 4 imported packages (C07: import lists)
-	OtherFile     int  // out of 10: share of root declarations placed in the sibling (not analysed) file; 0 = 1
-	DataIgnore    bool // gomacro-data:"ignore" tags (C15)
-	NoValuerNames bool // no field named Value / Scan (the type receives sql.Valuer / sql.Scanner methods)
-	EnumStress    bool // every enum declaration style of C10
-	UnionStress   bool // near misses, foreign implementers, embedded interfaces, zero-method interfaces (C11)
-	MaxDecls      int
-	MinDecls      int
-	FixedArrays   bool
-	Maps          bool
-	Times         bool
+	Pointers       bool // allow pointer fields
+	Unions         int  // 0 none, 1 allowed, 2 at least one
+	Hostile        bool // add unsupported forms (chan, func, anonymous struct, any, error, complex, anonymous containers of unions, …)
+	RareBasics     bool // basic kinds outside randdata's list (uint, uint32, uint64, float32, uintptr)
+	Recursion      bool // self / mutual recursion through slices, maps (and pointers when Pointers)
+	SubPkgs        bool
+	Generics       bool
+	Aliases        bool
+	Embedded       bool
+	StdTypes       bool
+	Spelling       bool // unusual but legal spellings (one-letter names, short package names, shared prefixes …)
+	TagVariety     bool // the full tag spelling catalogue of C09
+	NoIgnoreTag    bool // never put gomacro:"ignore" on a JSON-visible field (C03/C04 domain note)
+	JSONSafe       bool // only shapes whose Go JSON encoding round-trips (no bool/float map keys, no embedded time …)
+	ManySubPkgs    bool // up to 4 imported packages (C07: import lists)
+	ZeroArrays     bool // [0]T arrays (analysis-only properties)
+	NamedRecursion bool // cycles that only go through named maps / slices: type Tree map[string]Tree (analysis-only properties)
+	EmbedNamed     bool // structs may embed an exported named non-struct type (a regular field for encoding/json)
+	ShortModule    bool // the analysed package may have an import path of one or two elements (module at the root)
+	SameNamePkgs   bool // two imported packages may share their package name under different paths (the importing file aliases one)
+	OtherFile      int  // out of 10: share of root declarations placed in the sibling (not analysed) file; 0 = 1
+	DataIgnore     bool // gomacro-data:"ignore" tags (C15)
+	NoValuerNames  bool // no field named Value / Scan (the type receives sql.Valuer / sql.Scanner methods)
+	EnumStress     bool // every enum declaration style of C10
+	UnionStress    bool // near misses, foreign implementers, embedded interfaces, zero-method interfaces (C11)
+	MaxDecls       int
+	MinDecls       int
+	FixedArrays    bool
+	Maps           bool
+	Times          bool
 }
 
 func (o *Opts) gated(feature string) bool {
@@ -335,8 +340,9 @@ func (g *gen) drawType(pkg *Pkg, label string, c typeCtx) (*TypeRef, *tinfo) {
 		return Slice(e), ti
 	case "array":
 		n := []int{1, 2, 3, 5, 2, 3}[rapid.IntRange(0, 5).Draw(t, label+"Len")]
-		if g.o.Hostile && rapid.IntRange(0, 9).Draw(t, label+"Len0") == 0 {
+		if (g.o.Hostile || g.o.ZeroArrays) && rapid.IntRange(0, 9).Draw(t, label+"Len0") == 0 {
 			n = 0
+			g.o.class("feature:zero_length_array")
 		}
 		e, ti := g.drawType(pkg, label+"E", typeCtx{depth: c.depth + 1, inAnonCon: true, inArray: true})
 		return Array(n, e), ti
@@ -484,6 +490,26 @@ func (g *gen) addStruct(pkg *Pkg, file *File, exported bool) *tinfo {
 	usedKeys := map[string]bool{}
 	for i := 0; i < n; i++ {
 		f := &Field{}
+		if g.o.EmbedNamed && rapid.IntRange(0, 11).Draw(t, "embedNamed") == 0 {
+			// an embedded exported named type that is not a struct: encoding/json treats it as a field named after the type
+			cands := g.candidates(pkg, func(x *tinfo) bool {
+				if x.pkg != pkg || x.d == nil || used[x.d.Name] || usedKeys[x.d.Name] || len(x.d.Impl) > 0 || x.d.TimeLike || x.hasUnion || x.unsupp {
+					return false
+				}
+				if !(x.d.Name[0] >= 'A' && x.d.Name[0] <= 'Z') {
+					return false
+				}
+				return (x.d.Kind == KNamed && (x.cat == "basic" || x.cat == "id" || x.cat == "slice" || x.cat == "map" || x.cat == "array")) || x.d.Kind == KEnum
+			})
+			if len(cands) > 0 {
+				e := cands[rapid.IntRange(0, len(cands)-1).Draw(t, "embedNamedRef")]
+				used[e.d.Name], usedKeys[e.d.Name] = true, true
+				f.Embedded, f.Name, f.Type = true, e.d.Name, g.refTo(pkg, e)
+				d.Fields = append(d.Fields, f)
+				g.o.class("feature:embedded_named_non_struct")
+				continue
+			}
+		}
 		if g.o.Embedded && rapid.IntRange(0, 11).Draw(t, "embed") == 0 {
 			cands := g.candidates(pkg, func(x *tinfo) bool {
 				return x.cat == "struct" && x.d.Kind == KStruct && x.pkg == pkg && !used[x.d.Name] && !x.hasUnion
@@ -604,6 +630,10 @@ func (g *gen) addNamed(pkg *Pkg, file *File) *tinfo {
 		}
 		e, eti := g.drawType(pkg, "naElem", typeCtx{depth: 1, inArray: true, namedElem: true, noUnion: g.o.gated("named_array_of_union")})
 		n := rapid.IntRange(1, 4).Draw(t, "naLen")
+		if g.o.ZeroArrays && rapid.IntRange(0, 7).Draw(t, "naLen0") == 0 {
+			n = 0
+			g.o.class("feature:zero_length_array")
+		}
 		d := &Decl{Kind: KNamed, Name: g.freshName(pkg, "naName", exported), Type: Array(n, e)}
 		ti := &tinfo{cat: "array"}
 		if eti != nil {
